@@ -588,8 +588,13 @@ class Await:
 
 class Program:
     def __init__(self, path):
-        with open(path) as f:
-            j = json.load(f)
+        if path.endswith('.gz'):
+            import gzip
+            with gzip.open(path, 'rt') as f:
+                j = json.load(f)
+        else:
+            with open(path) as f:
+                j = json.load(f)
         import anchors
         self.renamed_fields = anchors.canonicalise(j)
         self.rebound_fns = anchors.rebind_functions(j)
